@@ -16,7 +16,8 @@ tests/test_WellTestState.cpp / WTEST.cpp, tests/test_Restart.cpp, tests/test_Ser
   RestartValue   rate/connection/segment updates only for wells that exist; extra keys unique, <= 8 characters,
                  not reserved and not a solution name; int solution vectors have dimension identity (the only
                  constructor for them); dimensions are enumerators below measure::_count
-Doubles are finite or +-inf, never NaN (NaN != NaN makes operator== meaningless for it).
+Doubles are finite or +-inf, never NaN (NaN != NaN makes operator== meaningless for it); values fed to
+SummaryState::update*() are finite, because totals (xxPT, xxIT, ...) ACCUMULATE and inf + (-inf) is NaN.
 """
 import os
 import re
@@ -86,8 +87,8 @@ class Bytes:
     def flag(self, num=1, den=2):
         return self.u8() % den < num
 
-    def double(self):
-        """hex-float text of a finite or infinite double"""
+    def double(self, inf=True):
+        """hex-float text of a finite or (inf=True) infinite double"""
         k = self.u8()
         if k < 160:
             v = SPECIAL[k % len(SPECIAL)]
@@ -98,6 +99,8 @@ class Bytes:
             v = struct.unpack("<d", raw)[0]
             if v != v:
                 v = 1.5
+        if not inf and v in (float("inf"), float("-inf")):
+            v = 1e308 if v > 0 else -1e308
         return float(v).hex()
 
     def posdouble(self):
@@ -155,19 +158,19 @@ def _smry_ops(b, nmax, allow_append=True):
     while b.more() and len(ops) < nmax:
         k = b.below(40)
         if k < 5:
-            ops.append({"op": "update", "key": b.pick(GEN_KEYS), "v": b.double()})
+            ops.append({"op": "update", "key": b.pick(GEN_KEYS), "v": b.double(False)})
         elif k < 7:
-            ops.append({"op": "set", "key": b.pick(GEN_KEYS), "v": b.double()})
+            ops.append({"op": "set", "key": b.pick(GEN_KEYS), "v": b.double(False)})
         elif k < 13:
-            ops.append({"op": "well", "well": b.pick(WELLS), "var": b.pick(WELL_VARS), "v": b.double()})
+            ops.append({"op": "well", "well": b.pick(WELLS), "var": b.pick(WELL_VARS), "v": b.double(False)})
         elif k < 17:
-            ops.append({"op": "group", "group": b.pick(GROUPS), "var": b.pick(GROUP_VARS), "v": b.double()})
+            ops.append({"op": "group", "group": b.pick(GROUPS), "var": b.pick(GROUP_VARS), "v": b.double(False)})
         elif k < 21:
-            ops.append({"op": "conn", "well": b.pick(WELLS), "var": b.pick(CONN_VARS), "num": b.pick(NUMS), "v": b.double()})
+            ops.append({"op": "conn", "well": b.pick(WELLS), "var": b.pick(CONN_VARS), "num": b.pick(NUMS), "v": b.double(False)})
         elif k < 25:
-            ops.append({"op": "segment", "well": b.pick(WELLS), "var": b.pick(SEG_VARS), "num": b.pick(NUMS), "v": b.double()})
+            ops.append({"op": "segment", "well": b.pick(WELLS), "var": b.pick(SEG_VARS), "num": b.pick(NUMS), "v": b.double(False)})
         elif k < 29:
-            ops.append({"op": "region", "regset": b.pick(REGSETS), "var": b.pick(REG_VARS), "num": b.pick(NUMS), "v": b.double()})
+            ops.append({"op": "region", "regset": b.pick(REGSETS), "var": b.pick(REG_VARS), "num": b.pick(NUMS), "v": b.double(False)})
         elif k < 30:
             ops.append({"op": "elapsed", "v": b.posdouble()})
         elif k < 33:
@@ -483,8 +486,8 @@ def decode(data):
 def strategy(tier):
     # a few bytes per operation (a well with its rates ~50); three length bands because Hypothesis' binary() averages
     # close to its minimum size
-    return st.one_of(st.binary(min_size=4, max_size=80), st.binary(min_size=80, max_size=400),
-                     st.binary(min_size=300, max_size=1500)).map(decode)
+    return st.one_of(st.binary(min_size=4, max_size=80), st.binary(min_size=80, max_size=500),
+                     st.binary(min_size=400, max_size=2500)).map(decode)
 
 
 # the classes' serializationTestObject() instances; the query universe names what they contain plus names they do not
